@@ -91,7 +91,10 @@ func c05Rel(fed, got []byte) (pre bool, body string, post bool) {
 			}
 		}
 	}
-	return false, "other", false
+	// something else (a rewritten trigger, a trace-log message ...): the cursor sequences around it still count
+	pre = bytes.HasPrefix(got, []byte(c05Show)) && !bytes.HasPrefix(fed, []byte(c05Show))
+	post = bytes.HasSuffix(got, []byte(c05Hide)) && !bytes.HasSuffix(fed, []byte(c05Hide))
+	return pre, "other", post
 }
 
 type c05Chunk struct {
@@ -1288,7 +1291,9 @@ func c05Plan(rng *rand.Rand, shard, nshards, rounds int, special bool) []*c05Sce
 					sc.Name = fmt.Sprintf("drag%d", v)
 					sc.Steps = append(sc.Steps, c05Probes(rng, o, 2)...)
 					sc.Steps = append(sc.Steps, c05Step{A: "drag", V: v})
-					sc.Steps = append(sc.Steps, c05Probes(rng, o, 6)...)
+					sc.Steps = append(sc.Steps, c05Probes(rng, o, 3)...)
+					sc.Steps = append(sc.Steps, c05Step{A: "cmdecho"}) // the command's text as ordinary output, after the drag is over
+					sc.Steps = append(sc.Steps, c05Probes(rng, o, 3)...)
 				} else {
 					sc.Name = "idle2"
 					sc.Steps = c05Probes(rng, o, 20)
